@@ -56,12 +56,19 @@ def baseline(blob):
     """unfiltered run on fresh parsers: list of dict(ts, tid, eventid, text, proc, line)"""
     objs = list(fresh().traces(BudgetReader(blob)))
     lines = list(fresh().formatted_traces(BudgetReader(blob)))
-    if len(objs) != len(lines):
+    noproc = fresh()
+    noproc.show_process = False
+    lines_noproc = list(noproc.formatted_traces(BudgetReader(blob)))
+    if len(objs) != len(lines) or len(lines) != len(lines_noproc):
         raise Violation('baseline', 'traces() and formatted_traces() disagree on the unfiltered run')
     out = []
-    for t, line in zip(objs, lines):
+    for t, line, bare in zip(objs, lines, lines_noproc):
         e = t.ktraces[0]
-        out.append({'ts': e.timestamp, 'tid': e.tid, 'eventid': e.eventid, 'text': str(t), 'proc': line[12:46].rstrip(), 'line': line})
+        text = str(t)
+        # the process column is whatever the line gains with show_process (no assumption on column widths)
+        head = bare[:len(bare) - len(text)] if bare.endswith(text) else ''
+        proc = line[len(head):len(line) - len(text)].strip() if line.endswith(text) and line.startswith(head) else '?'
+        out.append({'ts': e.timestamp, 'tid': e.tid, 'eventid': e.eventid, 'text': text, 'proc': proc, 'line': line})
     return out
 
 
